@@ -72,7 +72,7 @@ obj("Node", [
     ("next", opt(ref("Node"))), ("tags", st(STRING)), ("byDouble", mp(DOUBLE, ref("Leaf"))),
     ("byName", mp(STRING, ref("Node"))), ("leaf", opt(ref("Leaf"))), ("choice", opt(ref("Choice"))),
     ("alias", opt(ref("StrAlias"))), ("keys", opt(ref("Keys"))), ("color", opt(ref("Color"))),
-    ("leaves", lst(opt(ref("Leaf")))), ("type", opt(INTEGER)),
+    ("leaves", lst(opt(ref("Leaf")))), ("type", opt(INTEGER)), ("leafSet", st(ref("Leaf"))),
 ])
 obj("Grants", [("byUser", mp(STRING, ref("Color"))), ("level", ref("Color")), ("tags", st(ref("Color")))])
 union("Choice", [
@@ -133,7 +133,8 @@ service("ParamService", [
         arg("ls", lst(STRING), "query"), arg("li", lst(INTEGER), "query"), arg("ld", lst(DOUBLE), "query"),
         arg("lu", lst(UUID), "query"), arg("ss", st(STRING), "query"), arg("si", st(INTEGER), "query"),
         arg("sc", st(ref("Color")), "query"), arg("sb", st(BOOLEAN), "query"), arg("la", ref("ListStrAlias"), "query"),
-        arg("sa", ref("SetIntAlias"), "query"), arg("lal", lst(ref("StrAlias")), "query")]),
+        arg("sa", ref("SetIntAlias"), "query"), arg("lal", lst(ref("StrAlias")), "query"),
+        arg("lb", lst(BINARY), "query"), arg("ob", opt(BINARY), "query")]),
     ep("queryMixed", "POST", "/q/mixed/{fooBar}", [
         arg("fooBar", STRING, "path"), arg("type", opt(STRING), "query", pid="type"),
         arg("camelCase", STRING, "query", pid="camel-case"), arg("list", lst(STRING), "query", pid="l"),
@@ -217,6 +218,7 @@ service("BodyService", [
     ep("bodyKb", "POST", "/b/kb", [arg("body", ref("Node"), "body")], tags=["server-limit-request-size: 1 KB"]),
     ep("bodyHundred", "POST", "/b/hundred", [arg("body", lst(STRING), "body")], returns=INTEGER, tags=["server-limit-request-size: 100"]),
     # the limit tag among other tags, sorting before and after it
+    ep("bodyMb", "POST", "/b/mb", [arg("body", lst(STRING), "body")], tags=["server-limit-request-size: 1mb"]),
     ep("bodyTaggedBefore", "POST", "/b/taggedBefore", [arg("body", STRING, "body")], tags=["incubating", "server-limit-request-size: 24b"]),
     ep("bodyTaggedAfter", "POST", "/b/taggedAfter", [arg("body", opt(STRING), "body")], tags=["server-limit-request-size: 24b", "zz-team-owner", "Audited"]),
     ep("bodyWithParams", "POST", "/b/with/{p}", [
